@@ -98,6 +98,11 @@ def gen_cases(ctx):
             gen.WIDE_RATE = 0
         c.update(kind="history", resets=False, mirror_after=rng.choice([0, 5]), burst=[2, 6])
         yield c
+    from . import _env_workload as E
+    for i in range(ctx.scale(60, 9000)):
+        # the same queries as a user meets them inside the multi-instance environment (filter
+        # from the constructor, default, None, or changed through the env's setter)
+        yield E.gen_multi_case(rng)
     for i in range(ctx.scale(50, 9000)):
         inst = gen.gen_instance(rng, rng.choice(gen.INSTANCE_CLASSES), max_jobs=3,
                                 max_machines=3, max_ops=rng.randint(4, 6))
@@ -345,9 +350,31 @@ def run_case(ctx, case):
     return _run_case(ctx, case)
 
 
+def _run_multi_env(ctx, case):
+    from . import _env_workload as E
+    rng = random.Random(case["seed"] + 3)
+    for event, run, info in E.multi_env_episodes(ctx, case):
+        trace = ["<env %s>" % event]
+        for q in ("available_operations", "current_time", rng.choice(ZERO_ARG), rng.choice(ZERO_ARG)):
+            check_query(ctx, run, None, q, rng, trace)
+        if info is not None and run.exact_filters:
+            got = _ids(info["available_operations"])
+            want = run.r.available(run.filter_names)
+            ctx.count("env_info_available_operations_checked")
+            if got != want:
+                ctx.violation("c05_query_mismatch",
+                              {"query": "info['available_operations'] of the multi env", "got": got,
+                               "want": want, "history": list(run.r.history), "filter": run.filter_names,
+                               "constructor_filter": case["constructor_filter"], "setter": case.get("setter")})
+    ctx.note_case(case, True, fingerprint="multi:%s:%s:%s" % (case["seed"], case["constructor_filter"],
+                                                              case.get("setter")))
+
+
 def _run_case(ctx, case):
     from job_shop_lib.dispatching import UnscheduledOperationsObserver
 
+    if case["kind"] == "multi_env_filter":
+        return _run_multi_env(ctx, case)
     rng = random.Random(case["seed"])
     if case["kind"] == "history":
         run = Run(case["instance"], case.get("filter"))
